@@ -194,6 +194,10 @@ func buildWorld(r *rng.R, small bool) *world {
 		},
 		"query": func() *graphql.FieldDefinition { return &graphql.FieldDefinition{Type: o0} },
 		"tagged": func() *graphql.FieldDefinition { return &graphql.FieldDefinition{Type: tagged} },
+		// interface fields with arguments / of composite type, for overlapping fields whose parents are
+		// an interface and an implementing object type
+		"nick":   func() *graphql.FieldDefinition { return &graphql.FieldDefinition{Type: graphql.StringType, Arguments: args("n", graphql.IntType)} },
+		"friend": func() *graphql.FieldDefinition { return &graphql.FieldDefinition{Type: named, Arguments: args("n", graphql.IntType)} },
 		"gif": func() *graphql.FieldDefinition {
 			return &graphql.FieldDefinition{Type: gi, RequiredFeatures: schema.NewFeatureSet("gate")}
 		},
@@ -214,7 +218,7 @@ func buildWorld(r *rng.R, small bool) *world {
 		}
 		return m
 	}
-	named.Fields = mk("name", "i")
+	named.Fields = mk("name", "i", "nick", "friend")
 	node.Fields = mk("id")
 	tagged.Fields = mk("id")
 	gi.Fields = mk("i")
@@ -229,10 +233,10 @@ func buildWorld(r *rng.R, small bool) *world {
 		return out
 	}
 	o0.Fields = mk(pick([]string{"i", "s", "arg", "req", "alpha", "oa", "named", "node", "ab", "cmp", "query", "tagged"}, "b", "dfl", "flt", "bgs", "gammas", "beta", "li", "col", "gi", "gobj", "cu", "gif", "gg")...)
-	o1.Fields = mk(pick([]string{"name", "i", "id", "s", "beta", "arg", "oa"}, "req", "dfl", "ab", "query", "gammas", "col", "cmp", "gi")...)
-	o2.Fields = mk(pick([]string{"name", "i", "id", "alpha"}, "s", "arg", "li", "named", "bgs", "flt")...)
+	o1.Fields = mk(pick([]string{"name", "i", "id", "s", "beta", "arg", "oa", "nick", "friend"}, "req", "dfl", "ab", "query", "gammas", "col", "cmp", "gi")...)
+	o2.Fields = mk(pick([]string{"name", "i", "id", "alpha", "nick", "friend"}, "s", "arg", "li", "named", "bgs", "flt")...)
 	o3.Fields = mk(pick([]string{"id", "i", "b"}, "s", "alpha", "node", "cu", "query")...)
-	gated.Fields = mk("i", "name", "id")
+	gated.Fields = mk("i", "name", "id", "nick", "friend")
 	o1.ImplementedInterfaces = []*graphql.InterfaceType{named, node}
 	o2.ImplementedInterfaces = []*graphql.InterfaceType{named, node}
 	o1.ImplementedInterfaces = []*graphql.InterfaceType{named, node, gi}
